@@ -257,6 +257,7 @@ void runVariant(const Json::Value& sc, const std::string& variant, Json::Value& 
   }
 
   for (auto& x : sc["empty_at_attempt"]) vk::g_w.emptyAtAttempt.insert(x.asInt());
+  vk::g_w.recordEventsReads = true;
 
   if (sc.isMember("swap_at_kill")) {
     // mid-run replacement of a cgroup: the directory oomd holds an fd of moves out of the tree (the fd keeps naming it), a
